@@ -21,9 +21,43 @@ const char *CHECK_ID = "C12";
 using namespace cm;
 using hz::Plan; using hz::Result; using hz::Violation;
 typedef amgcl::mpi::distributed_matrix<DBackend> DM;
+typedef std::map<std::pair<long,long>, double> Entries;
+
+// ---- recording distributed coarsening: every rank appends the strips it sees to harness-side level records --------
+struct LevelRec { Entries A, P, R, Ac; long nA = 0, nC = 0; int calls = 0; double scale = 1; };
+static std::vector<LevelRec> g_levels;
+static std::vector<int> g_rank_level;          // per rank: how many levels it has recorded
+template <class M>
+static void add_strip(Entries &e, const M &dm, long row0) {
+    const auto &loc = *dm.local(); const auto &rem = *dm.remote(); long col0 = dm.loc_col_shift();
+    for (size_t i = 0; i < loc.nrows; ++i) {
+        for (ptrdiff_t j = loc.ptr[i]; j < loc.ptr[i+1]; ++j) e[std::make_pair(row0 + (long)i, col0 + (long)loc.col[j])] += loc.val[j];
+        for (ptrdiff_t j = rem.ptr[i]; j < rem.ptr[i+1]; ++j) e[std::make_pair(row0 + (long)i, (long)rem.col[j])] += rem.val[j];
+    }
+}
+struct rec_coarsening : amgcl::runtime::mpi::coarsening::wrapper<DBackend> {
+    typedef amgcl::runtime::mpi::coarsening::wrapper<DBackend> Base;
+    typedef Base::params params;
+    float over_interp; bool plain;
+    rec_coarsening(params prm = params()) : Base(prm), over_interp(prm.get("over_interp", 1.5f)), plain(prm.get("type", std::string("smoothed_aggregation")) == "aggregation") {}
+    std::shared_ptr<DM> coarse_operator(const DM &A, const DM &P, const DM &R) const {
+        std::shared_ptr<DM> Ac = Base::coarse_operator(A, P, R);
+        int rank = simmpi::world_rank();
+        size_t lvl = (size_t)g_rank_level[rank]++;
+        if (g_levels.size() <= lvl) g_levels.resize(lvl + 1);
+        LevelRec &L = g_levels[lvl];
+        add_strip(L.A, A, A.loc_col_shift()); add_strip(L.P, P, A.loc_col_shift()); add_strip(L.R, R, P.loc_col_shift()); add_strip(L.Ac, *Ac, Ac->loc_col_shift());
+        L.nA = A.glob_rows(); L.nC = P.glob_cols(); ++L.calls; L.scale = plain ? (double)(1.0f / over_interp) : 1.0;
+        return Ac;
+    }
+};
+namespace amgcl { namespace runtime { namespace mpi { namespace coarsening {
+inline unsigned block_size(const rec_coarsening &c) { return block_size(static_cast<const rec_coarsening::Base&>(c)); }
+} } } }
+
 typedef amgcl::mpi::make_solver<
     amgcl::mpi::amg<DBackend,
-        amgcl::runtime::mpi::coarsening::wrapper<DBackend>,
+        rec_coarsening,
         amgcl::runtime::mpi::relaxation::wrapper<DBackend>,
         amgcl::runtime::mpi::direct::solver<double>,
         amgcl::runtime::mpi::partition::wrapper<DBackend> >,
@@ -86,6 +120,7 @@ Result execute(const Plan &p) {
     std::vector<double> x(n, 0.0); std::vector<double> iters(R, -1), resid(R, -1);
     bool any_empty = false; for (int r = 0; r < R; ++r) if (rp[r+1] == rp[r]) any_empty = true;
 
+    g_levels.clear(); g_rank_level.assign(R, 0);
     simmpi::Config mc; mc.ranks = R; mc.nt = (int)p.get("nt"); mc.late_send_read = p.get("late_send_read") != 0; mc.recv_poison = p.get("recv_poison") != 0; mc.rendezvous = p.get("rendezvous") != 0; mc.seed = (uint64_t)p.get("fseed");
     simmpi::Outcome out = simmpi::run(mc, p.sched, [&](int rank) {
         amgcl::mpi::communicator comm(MPI_COMM_WORLD);
@@ -124,6 +159,37 @@ Result execute(const Plan &p) {
                 res.counts["truthfulness_evaluated"]++;
             }
             // (the stationary Richardson iteration must not diverge - its rate with block-local smoothers can be slow -, the Krylov methods must reach the tolerance)
+            // ---- distributed coarsening structure (recorded through the policy seam), levels small enough for a dense model
+            for (size_t l = 0; l < g_levels.size(); ++l) {
+                const LevelRec &L = g_levels[l];
+                if (L.calls != R) { res.fail(sig("coarsening-structure", "every-rank-coarsens-every-level", fmt("level %zu: %d of %d ranks called coarse_operator", l, L.calls, R))); break; }
+                if (L.nA > 260) continue;
+                res.counts["distributed_levels_checked"]++;
+                const long nA = L.nA, nC = L.nC;
+                // R is the transpose of P
+                bool rt = L.R.size() == L.P.size(); if (rt) for (Entries::const_iterator it = L.P.begin(); it != L.P.end(); ++it) { Entries::const_iterator q = L.R.find(std::make_pair(it->first.second, it->first.first)); if (q == L.R.end() || q->second != it->second) { rt = false; break; } }
+                if (!rt) res.fail(sig("coarsening-structure", "R=P^T", fmt("level %zu", l)));
+                // A_c = R*A*P (divided by the float over-interpolation factor for plain aggregation)
+                std::vector<long double> AP((size_t)nA * nC, 0.0L), AbsAP((size_t)nA * nC, 0.0L);
+                for (Entries::const_iterator a = L.A.begin(); a != L.A.end(); ++a) for (Entries::const_iterator q = L.P.lower_bound(std::make_pair(a->first.second, -1L)); q != L.P.end() && q->first.first == a->first.second; ++q) { AP[(size_t)a->first.first * nC + q->first.second] += (long double)a->second * q->second; AbsAP[(size_t)a->first.first * nC + q->first.second] += std::fabs((long double)a->second * q->second); }
+                std::vector<long double> RAP((size_t)nC * nC, 0.0L), Bnd((size_t)nC * nC, 0.0L);
+                for (Entries::const_iterator rr2 = L.R.begin(); rr2 != L.R.end(); ++rr2) for (long c = 0; c < nC; ++c) { RAP[(size_t)rr2->first.first * nC + c] += (long double)rr2->second * AP[(size_t)rr2->first.second * nC + c]; Bnd[(size_t)rr2->first.first * nC + c] += std::fabs((long double)rr2->second) * AbsAP[(size_t)rr2->first.second * nC + c]; }
+                std::vector<double> Dn((size_t)nC * nC, 0.0); for (Entries::const_iterator c = L.Ac.begin(); c != L.Ac.end(); ++c) if (c->first.first < nC && c->first.second < nC) Dn[(size_t)c->first.first * nC + c->first.second] += c->second;
+                for (long i = 0; i < nC * nC; ++i) { long double want = RAP[i] * L.scale, tl = 64 * 1.2e-16L * Bnd[i] * L.scale + 1e-300L; if (std::fabs((long double)Dn[i] - want) > tl) { res.fail(sig("coarsening-structure", "A_c=R*A*P", fmt("level %zu: A_c(%ld,%ld) = %.17g, R*A*P*%g = %.17Lg", l, i / nC, i % nC, Dn[i], L.scale, want))); break; } }
+                // aggregates: every unknown with a strong neighbour lies in an aggregate (non-empty row of P); for plain aggregation
+                // exactly one unit entry per such row; no empty aggregate (every column of P non-empty)
+                std::vector<double> dia(nA, 0.0); for (Entries::const_iterator a = L.A.begin(); a != L.A.end(); ++a) if (a->first.first == a->first.second) dia[a->first.first] = a->second;
+                std::vector<char> strong(nA, 0); const double eps2 = 0.08 * 0.08;
+                for (Entries::const_iterator a = L.A.begin(); a != L.A.end(); ++a) { long i = a->first.first, c = a->first.second; if (i != c && c < nA && eps2 * dia[i] * dia[c] < a->second * a->second) strong[i] = 1; }
+                std::vector<int> rowcnt(nA, 0), colcnt(nC, 0); bool unit = true;
+                for (Entries::const_iterator q = L.P.begin(); q != L.P.end(); ++q) { rowcnt[q->first.first]++; if (q->first.second < nC) colcnt[q->first.second]++; if (q->second != 1.0) unit = false; }
+                for (long i = 0; i < nA; ++i) if (strong[i] && rowcnt[i] == 0) { res.fail(sig("coarsening-structure", "non-isolated-unknown-in-an-aggregate", fmt("level %zu: unknown %ld of %ld has a strong neighbour but belongs to no aggregate (empty row of P)", l, i, nA))); break; }
+                if (coarsening == 0) {
+                    if (!unit) res.fail(sig("coarsening-structure", "constant-near-nullspace", fmt("level %zu: tentative prolongation has entries different from 1", l)));
+                    for (long i = 0; i < nA; ++i) if (rowcnt[i] > 1) { res.fail(sig("coarsening-structure", "exactly-one-aggregate", fmt("level %zu: unknown %ld lies in %d aggregates", l, i, rowcnt[i]))); break; }
+                }
+                for (long c = 0; c < nC; ++c) if (colcnt[c] == 0) { res.fail(sig("coarsening-structure", "no-empty-aggregate", fmt("level %zu: coarse unknown %ld has no fine member", l, c))); break; }
+            }
             if (finite && (solver == 7 ? !(resid[0] < 1.0) : !(resid[0] < tol))) res.fail(sig("converges-on-spd", solver == 7 ? "richardson-converges" : "within-200-iterations", fmt("%.0f iterations, residual %.3g (n=%ld, %d ranks)", iters[0], resid[0], n, R)));
         }
     }
